@@ -556,8 +556,11 @@ func (o *operation) handle() {
 		switch err := o.readRequestMessage(nil, o.request.Body, &reqMsg); {
 		case errors.Is(err, io.EOF):
 			// okay for the first message: means empty message data
-			// (the message has no buffer yet if the stream ended before any envelope)
-			reqMsg.reset(o.bufferPool, true, false)
+			// (the message has no buffer yet if the stream ended before any envelope).
+			// The message may still come from elsewhere (a Connect GET carries it in
+			// the URL); if the client declared a compression, what is sent on under
+			// the corresponding header has to be compressed like any other message.
+			reqMsg.reset(o.bufferPool, true, o.client.reqCompression != nil)
 			reqMsg.markReady()
 		case err != nil:
 			o.reportError(err)
